@@ -109,6 +109,26 @@ where
     }
 }
 
+/// Verification hook: lets the conformance harness build events and read the per-processor status.
+#[cfg(p2panda_p2panda_verif)]
+impl<L, E, TP> Event<L, E, TP>
+where
+    L: LogId,
+    TP: Clone,
+{
+    pub fn verif_new(operation: Operation<E>, log_id: L, topic: TP, prune_flag: PruneFlag) -> Self {
+        Self::new(operation, log_id, topic, prune_flag)
+    }
+
+    pub fn verif_ingest(&self) -> &ProcessorStatus<IngestResult, IngestError> {
+        &self.ingest
+    }
+
+    pub fn verif_log_prune(&self) -> &ProcessorStatus<LogPruneResult, LogPruneError> {
+        &self.log_prune
+    }
+}
+
 /// Operation failed during event processing of the system-level pipeline.
 ///
 /// This is likely to come from either processing invalid operations from a broken / malicious node
